@@ -753,3 +753,58 @@ fn unpaired_ci_check<M: Machine>(slot: u16, s: &Slot<M>, o_h: &Obs, o_b: &Obs, o
     }
     None
 }
+
+// ------------------------------------------------------------------------------------------
+// alternation probe: an answer is a function of (state, confidence) and of nothing else
+// ------------------------------------------------------------------------------------------
+
+/// Two live states `a` and `b` of one run are asked in alternation, by one thread, the way two
+/// tenants of a process take turns. Each is first asked alone (its own previous question being a
+/// different confidence, so that whatever the library remembers of "the last request" belongs to
+/// this state), then directly after the *other* state was asked the same question. The four
+/// answers must pair up bit for bit ("repeated queries return identical results"). A memo of the
+/// last request whose key does not identify the state (say count, mean and level but not the
+/// spread) survives every single-object history and every history-vs-batch comparison - the
+/// batch twin reads the same memo - and shows exactly here.
+pub fn alternation_probe<M: Machine>(sa: &M::S, sb: &M::S, c: u8, unguarded: bool, slots: (u16, u16), stats: &mut Stats) -> Option<Violation> {
+    let c2 = (c + 7) % N_CONF;
+    let ask = |s: &M::S, c: u8| -> Obs { M::observe(s, ObsPlan { confs: &[c], unguarded }) };
+    stats.inc("alternation_probes");
+    let _ = ask(sa, c2);
+    let clean_a = ask(sa, c);
+    let _ = ask(sb, c2);
+    let clean_b = ask(sb, c);
+    let after_a = ask(sa, c); // directly after b answered the same question
+    let after_b = ask(sb, c); // directly after a answered the same question
+    let again_a = ask(sa, c);
+    for (who, clean, later) in [(slots.0, &clean_a, &after_a), (slots.1, &clean_b, &after_b), (slots.0, &clean_a, &again_a)] {
+        if clean != later {
+            return Some(Violation::new(
+                "C09",
+                "query-answer-depends-on-a-neighbouring-state-s-query",
+                who,
+                format!("{} slot {} asked {} alone and again right after slot {} was asked the same: {} (states {} | {})", M::name(), who, conf_name(c), if who == slots.0 { slots.1 } else { slots.0 }, first_diff(clean, later), M::fingerprint(sa), M::fingerprint(sb)),
+            ));
+        }
+    }
+    None
+}
+
+/// the partner of slot `a` for the alternation probe: another live slot, preferably one holding
+/// the same number of observations (the likeliest collision of a too-coarse key)
+pub fn alternation_partner<M: Machine>(w: &World<M>, a: u16) -> Option<u16> {
+    let na = w.get(a)?.model.total();
+    let mut best: Option<(bool, u16)> = None;
+    for i in w.live() {
+        if i == a {
+            continue;
+        }
+        let same = w.get(i).map(|s| s.model.total() == na).unwrap_or(false);
+        match best {
+            Some((true, _)) => {}
+            Some((false, _)) if !same => {}
+            _ => best = Some((same, i)),
+        }
+    }
+    best.map(|(_, i)| i)
+}
